@@ -207,9 +207,24 @@ Expressible(S, t, v) ==
                              /\ Expressible(S, FieldOf(t, v.ps[i].k).t, v.ps[i].v)
     [] OTHER -> TRUE
 
+\* collections of collections: a 2 x 2 grid with the violating element at each (i, j) - off the diagonal too -, the all-valid
+\* grid, and ragged valid shapes (1 x 3, 3 x 1)
+IsColl(t) == t.k \in {"arr", "map"}
+Mk(t, elems) == IF t.k = "arr" THEN JArr(elems) ELSE JObj([i \in DOMAIN elems |-> P("k" \o ToString(i), elems[i])])
+GridVals(S, t, fuel) ==
+  IF ~(IsColl(t) /\ IsColl(t.t)) THEN {}
+  ELSE LET lt   == t.t.t
+           ok   == Base(S, lt, fuel)
+           bads == {x.d : x \in {y \in Variants(S, lt, fuel) : y.f = "BreakBound" /\ Expressible(S, lt, y.d)}}
+           cell(i, j, bi, bj, bad) == IF i = bi /\ j = bj THEN bad ELSE ok
+           grid(bi, bj, bad) == Mk(t, [i \in 1..2 |-> Mk(t.t, [j \in 1..2 |-> cell(i, j, bi, bj, bad)])])
+       IN {grid(0, 0, ok), Mk(t, <<Mk(t.t, <<ok, ok, ok>>)>>), Mk(t, <<Mk(t.t, <<ok>>), Mk(t.t, <<ok>>), Mk(t.t, <<ok>>)>>)}
+          \cup (IF bads = {} THEN {} ELSE LET bad == CHOOSE b \in bads : TRUE IN {grid(bi, bj, bad) : bi \in 1..2, bj \in 1..2})
+
 \* valid values, constraint-violating values, failing nested builders: Base and its one-place variants
 ArgVals(S, t, fuel) ==
   {x.d : x \in {y \in ({Var(Base(S, t, fuel), "base", <<>>)} \cup Variants(S, t, fuel)) : Expressible(S, t, y.d)}}
+  \cup GridVals(S, Unwrap(S, t), fuel)
 
 (* ---------------------------------- C14 ----------------------------------------- *)
 \* ConvertInv: "builds an object equal to v in every field that differs from the builder's defaults"
@@ -255,7 +270,13 @@ Want(S, key, t, o, v) ==
 IsPromoted(b, o) == \E j \in DOMAIN b.ctor.asgs : b.ctor.asgs[j].path = o.asgs[1].path
 NeededOpts(S, t, D, key, b, v) == {i \in DOMAIN b.opts : ~IsPromoted(b, b.opts[i]) /\ OptNeeded(S, t, D, key, b.opts[i], v)}
 CountOf(counts, n) == IF \E i \in DOMAIN counts : counts[i].n = n THEN counts[CHOOSE i \in DOMAIN counts : counts[i].n = n].c ELSE 0
+\* options with the same arguments and the same assignments (an option and its duplicate) are one way to set the target:
+\* together they are needed Want times
+RECURSIVE GroupCount(_, _, _, _)
+GroupCount(b, counts, o, i) ==
+  IF i > Len(b.opts) THEN 0
+  ELSE (IF b.opts[i].args = o.args /\ b.opts[i].asgs = o.asgs THEN CountOf(counts, b.opts[i].name) ELSE 0) + GroupCount(b, counts, o, i + 1)
 NotOnce(S, t, D, key, b, v, counts) ==
-  {b.opts[i].name : i \in {j \in NeededOpts(S, t, D, key, b, v) : CountOf(counts, b.opts[j].name) # Want(S, key, t, b.opts[j], v)}}
+  {b.opts[i].name : i \in {j \in NeededOpts(S, t, D, key, b, v) : GroupCount(b, counts, b.opts[j], 1) # Want(S, key, t, b.opts[j], v)}}
   \cup (IF CountOf(counts, "#ctor") # Len(b.ctor.args) THEN {"#ctor"} ELSE {})
 ===============================================================================
